@@ -350,3 +350,64 @@ pub fn run(ctx: &Ctx) -> i32 {
         start,
     )
 }
+
+
+// ---------------------------------------------------------------------------
+// In-process replica used by the libFuzzer targets (thorough tier)
+// ---------------------------------------------------------------------------
+
+/// Decode a choice tape into file contents the way the `grammar`/`near_valid` sub-checks do.
+pub fn tape_to_source(tape: &[u8]) -> Vec<u8> {
+    let mut t = Tape::new(tape);
+    let (printed, _) = grammar_file(&mut t);
+    if t.chance(100) {
+        mutate_tokens(&mut t, &printed)
+    } else {
+        random_layout(&mut t, &printed).into_bytes()
+    }
+}
+
+/// Whole pipeline in-process on one file: parse_files, every definition lifted and converted to
+/// SSA, all analysis passes, conversion of every report to a diagnostic and to SARIF.
+/// Runs on a thread with a large stack (deep nesting is the recorded finding F20, not re-reported here).
+pub fn in_process(data: &[u8]) -> Result<(), String> {
+    use program_structure::sarif_conversion::ToSarif;
+    let dir = std::path::PathBuf::from(format!("/verif/target/scratch/fuzz-{}", std::process::id()));
+    let _ = std::fs::create_dir_all(&dir);
+    let path = dir.join("f.circom");
+    std::fs::write(&path, data).map_err(|e| format!("INFRA write: {e}"))?;
+    let curve = match data.first().copied().unwrap_or(0) % 3 {
+        0 => program_structure::constants::Curve::Bn254,
+        1 => program_structure::constants::Curve::Bls12_381,
+        _ => program_structure::constants::Curve::Goldilocks,
+    };
+    let handle = std::thread::Builder::new()
+        .stack_size(1 << 30)
+        .spawn(move || -> Result<(), String> {
+            install_panic_hook();
+            let r = super::c03::reference(&[path], &[], &curve)?;
+            catch(|| {
+                for rep in &r.reports {
+                    let _ = rep.to_diagnostic(true);
+                }
+                let _ = r.reports.to_sarif(&r.files);
+            })
+        })
+        .map_err(|e| format!("INFRA spawn: {e}"))?;
+    match handle.join() {
+        Ok(r) => r,
+        Err(_) => Err("analysis thread died".to_string()),
+    }
+}
+
+/// Confirm a libFuzzer artifact through the real binary (the in-process replica has debug
+/// assertions and is not `main`): returns Err only if the release binary misbehaves too.
+pub fn confirm_artifact(ctx: &Ctx, bytes: &[u8], from_tape: bool) -> Verdict {
+    let content = if from_tape { tape_to_source(bytes) } else { bytes.to_vec() };
+    let dir = scratch(ctx, "artifact");
+    let path = dir.join("a.circom");
+    std::fs::write(&path, &content).map_err(|e| Bad::new(format!("INFRA write: {e}")))?;
+    let r = file_case(ctx, &path.display().to_string());
+    let _ = std::fs::remove_dir_all(&dir);
+    r.map_err(|b| b.rendered(String::from_utf8_lossy(&content).to_string()))
+}
